@@ -10,7 +10,7 @@ filtered *given* which patterns match.  Floats carry nan/+-inf tags; the timesta
 import ast
 import z3
 
-from pyvc.runner import Unit, Property, Syntactic
+from pyvc.runner import Unit, Property, Syntactic, Bounded
 from pyvc.values import PyRaise, Atom
 from .proto_model import ProtoHarness, MR, RL, SEARCH
 from .common import FloatVal
@@ -135,6 +135,9 @@ def build():
   ]
   return Property(
     'C12', units,
+    bounded=[Bounded('C12/native/admission_cross_check', 'replay/receivers_native.py', ['--what', 'c12', '--n', '300'], ['--what', 'c12', '--n', '20000'],
+                     "300 (quick) / 20000 (thorough) seeded random (whitelist file, blacklist file, resolution) triples from 9 regex sets (empty, comments, blank and invalid lines) x resolutions 0/1/10/60, each with 12 (name, timestamp, value) draws from 10 names x 16 timestamps (incl. -1, -1.0, -1.5, -3.5, fractional, boundary values) x 7 values (incl. NaN, +-inf, 2**60) on the real line, UDP and pickle listeners with a fake clock, against an independent oracle",
+                     "regexlist.read_list (file parsing) and re.search are outside the discharged contract (uninterpreted); this runs files, regexes and listeners together on CPython")],
     syntactic=[Syntactic('C12/callsites/only_through_metricReceived', only_through_metric_received,
                          'the line, UDP and pickle receivers dispatch only via MetricReceiver.metricReceived (one call each, no override)')],
     trusted_base=['A-ENGINE', 'A-SMT', 'A-REAL', 'A-CLOCK', 're.search uninterpreted'],
